@@ -36,7 +36,7 @@ func (n Name) pack(msg []byte, off int, compression map[string]uint16) (int, err
 		// segment. A pointer is two bytes with the two most significant
 		// bits set to 1 to indicate that it is a pointer.
 		if compression != nil {
-			if ptr, ok := compression[string(n[labelStart:])]; ok {
+			if ptr, ok := compression[string(n[labelStart-1:])]; ok {
 				// Hit. Emit a pointer instead of the rest of
 				// the domain.
 				return packNamePtr(msg, off, [2]byte{byte(ptr>>8 | 0xC0), byte(ptr)})
@@ -49,7 +49,7 @@ func (n Name) pack(msg []byte, off int, compression map[string]uint16) (int, err
 				if len(unsafeStr) == 0 {
 					unsafeStr = bytes2StrUnsafe(n)
 				}
-				compression[unsafeStr[labelStart:]] = uint16(newPtr)
+				compression[unsafeStr[labelStart-1:]] = uint16(newPtr)
 			}
 		}
 
